@@ -161,11 +161,16 @@ impl Cmd {
 }
 
 fn pick_doc(t: &mut Tape, max_statements: u64) -> DocCase {
-    if t.chance(7, 10) {
-        gen_doc(t, max_statements)
-    } else {
-        let cases = shipped_cases();
-        cases[t.index(cases.len())].clone()
+    match t.draw(10) {
+        0..=6 => gen_doc(t, max_statements),
+        7 => {
+            let cases = crate::gen::handwritten_cases();
+            cases[t.index(cases.len())].clone()
+        }
+        _ => {
+            let cases = shipped_cases();
+            cases[t.index(cases.len())].clone()
+        }
     }
 }
 
@@ -178,8 +183,16 @@ fn output_choice(t: &mut Tape, tree: &mut Tree, ext: &str) -> Option<String> {
             Some(format!("out/result.{ext}"))
         }
         6 => {
-            // pre-existing output file: must be untouched on failure
-            tree.file(format!("composed.{ext}"), b"PRE-EXISTING OUTPUT".to_vec());
+            // pre-existing output file: must be untouched on failure and replaced as a whole
+            // on success (half of the time it is longer than anything the command writes)
+            let old = if t.chance(1, 2) {
+                b"PRE-EXISTING OUTPUT".to_vec()
+            } else {
+                let mut v = b"PRE-EXISTING OUTPUT ".to_vec();
+                v.resize(400_000, b'#');
+                v
+            };
+            tree.file(format!("composed.{ext}"), old);
             Some(format!("composed.{ext}"))
         }
         _ => Some(format!("no-such-dir/result.{ext}")),
@@ -365,8 +378,9 @@ pub fn gen_plug(t: &mut Tape) -> Scenario {
     tree.dir("home");
     tree.file("socket.wasm", socket.bytes.clone());
     let nplugs = t.range(1, 4) as usize;
-    let stems = ["logger", "store", "util", "x"];
+    let stems = ["logger", "store", "util", "x", "my_plug", "lib.v1", "Adder"];
     let mut plugs = Vec::new();
+    let mut previous_stem: Option<String> = None;
     for k in 0..nplugs {
         // bias towards components that export something the socket imports
         let candidates: Vec<usize> = comps
@@ -379,11 +393,25 @@ pub fn gen_plug(t: &mut Tape) -> Scenario {
         } else {
             comps[t.index(ncomp)]
         };
-        let stem = if t.chance(1, 2) {
-            stems[t.index(stems.len())].to_string()
-        } else {
-            format!("plug{k}")
+        let stem = match (&previous_stem, t.draw(6)) {
+            // a stem that differs from the previous one only in case or in `_` / `.` / `-`
+            // (different files, different plugs: both must be registered and plugged)
+            (Some(prev), 0) => {
+                if prev.contains('-') {
+                    prev.replace('-', "_")
+                } else if prev.contains(['_', '.']) {
+                    prev.replace(['_', '.'], "-")
+                } else if prev.chars().next().map_or(false, |c| c.is_ascii_uppercase()) {
+                    prev.to_ascii_lowercase()
+                } else {
+                    let mut c = prev.chars();
+                    c.next().map(|f| f.to_ascii_uppercase().to_string() + c.as_str()).unwrap_or_default()
+                }
+            }
+            (_, 1 | 2 | 3) => stems[t.index(stems.len())].to_string(),
+            _ => format!("plug{k}"),
         };
+        previous_stem = Some(stem.clone());
         let path = format!("p{k}/{stem}.wasm");
         tree.file(path.clone(), lib[pi].bytes.clone());
         plugs.push(path);
